@@ -372,6 +372,10 @@ Loosen(id, i, s) ==
           [op |-> "loosen", k |-> s, v |-> i, p |-> PathTo(heap, Root, id)], OK, OK)
 NextLoose == NextCore \/ \E id \in DOMAIN heap, i \in 2..(2 * MaxInt), s \in SepChoices : Loosen(id, i, s)
 SpecLoose == Init /\ [][NextLoose]_vars
+\* ... loosened at the end only (nothing but further loosening follows a Loosen): the states C06 round-trips - after a split
+\* the two implementations would differ in shape (D52), which is C09's business
+NextLooseEnd == (act.op # "loosen" /\ NextCore) \/ \E id \in DOMAIN heap, i \in 2..(2 * MaxInt), s \in SepChoices : Loosen(id, i, s)
+SpecLooseEnd == Init /\ [][NextLooseEnd]_vars
 \* ... and every public mutator on such trees
 NextLooseAll == Next \/ \E id \in DOMAIN heap, i \in 2..(2 * MaxInt), s \in SepChoices : Loosen(id, i, s)
 SpecLooseAll == Init /\ [][NextLooseAll]_vars
